@@ -884,6 +884,7 @@ func (req *IdpAuthnRequest) MakeAssertionEl() error {
 	var signedAssertionBuf []byte
 	{
 		doc := etree.NewDocument()
+		doc.WriteSettings.CanonicalText = true // see elementToBytes
 		doc.SetRoot(signedAssertionEl)
 		signedAssertionBuf, err = doc.WriteToBytes()
 		if err != nil {
@@ -928,6 +929,7 @@ func (req *IdpAuthnRequest) PostBinding() (IdpAuthnRequestForm, error) {
 	}
 
 	doc := etree.NewDocument()
+	doc.WriteSettings.CanonicalText = true // see elementToBytes
 	doc.SetRoot(req.ResponseEl)
 	responseBuf, err := doc.WriteToBytes()
 	if err != nil {
